@@ -14,14 +14,21 @@ MANIFEST = dict(
          "registration keeps address/ephemeral/enabled/weight for any origin and tag), foreign_deregister_refused / "
          "own_deregister_removes, disconnect_removes_own_ephemeral_only (RemoveClient leaves every instance untouched except "
          "ephemeral instances of that client) + disconnect_removes_recorded_ephemeral + grpc_registration_recorded, console "
-         "metadata precedence.  The old code's violation (persistent gRPC instance removed on disconnect) is kept as a refuted "
+         "metadata precedence; completeness at full strength over ALL histories: conv (every stored instance carrying the id of a "
+         "connection not yet removed is recorded for it) is preserved by every op (conv_step, conv_reachable), so for a live "
+         "connection recorded = owned (recorded_iff_owned) and RemoveClient removes ALL its ephemeral instances and nothing else "
+         "(disconnect_removes_ALL_own_ephemeral, disconnect_exact; hypotheses are boolean predicates on the history: op_wfb, alive_b "
+         "= the connection id was not removed before).  The old code's violation (persistent gRPC instance removed on disconnect) is kept as a refuted "
          "statement about a regression model; the repair is commit 773fb5e.  Tied to the code by the differential run of the REAL "
          "NamingActor (QueryList/QueryListString/QueryServiceInfo/Query/Delete/RemoveClient through the mailbox) + an "
-         "independent oracle recomputing each answer from the dumped instance map.",
+         "independent oracle recomputing each answer from the dumped instance map; the disconnect oracle reconstructs ownership "
+         "from the op history ALONE (which live connection registered which address as ephemeral, HTTP overwrite keeps ownership, "
+         "deregistration rules, distro diff), never from the implementation's client_instance_set or stored client id.",
     note="The protection test is proved over exact rationals (threshold num/den); binary32 rounding is not modelled, the harness "
-         "uses thresholds {0,1/4,1/2,3/4,1} and a handful of instances where both agree. Completeness of disconnect is stated for "
-         "instances recorded in client_instance_set (a persistent gRPC instance whose connection is gone and that is later "
-         "flipped to ephemeral over HTTP keeps the dead client id and is not recorded: outside the statement). Trusted: as C11.",
+         "uses thresholds {0,1/4,1/2,3/4,1} and a handful of instances where both agree. Disconnect completeness holds for connections that "
+         "have not been removed before (ids are not reused; generators retire ids). Observation replayed on the real code, outside "
+         "the statement: a persistent gRPC instance survives the end of its connection (correct), a later HTTP update flips it to "
+         "ephemeral, it keeps the dead connection's id and then belongs to no live connection and to no clock (orphan_flip_example). Trusted: as C11.",
     technique="Rocq proof (consequences of the registry invariant) + model/implementation correspondence",
     design="3/C12",
 )
@@ -267,13 +274,18 @@ def random_case(rng, nops):
     for _ in range(nops):
         x = rng.random()
         if x < 0.25:
-            ops.append(g.query())
+            q = g.query()
+            if q[0] in ("qlist", "qstr", "qinfo") and rng.random() < 0.4:
+                q = q + [rng.choice(["DEFAULT", "c1", "c1,c2", "nope"])]      # cluster filter: the code ignores it
+            ops.append(q)
         elif x < 0.33:
             ops.append(["rmclient", rng.choice(g.clients + g.remote[:1])])
         elif x < 0.36:
             ops.append(["svc", g.sk(), rng.choice([0, 1, 2, 3, 4])])
         else:
             ops.append(g.op())
+            if ops[-1][0] == "upd" and rng.random() < 0.3:
+                ops[-1][2]["cn"] = rng.choice(["c1", "c2"])                     # instance registered in a named cluster
         g.retire(ops[-1])
     return {"cfg": dict(nc.CFG), "ops": ops, "dump": "all", "services": [list(k) for k in g.services]}
 
@@ -388,5 +400,7 @@ def run(chk, replay=None):
     chk.cov["samples"] = cases[:2] + [cases[len(cases) // 2]]
     chk.cov["input_distribution"] = {"histories": len(cases), "judged_ops_by_kind": hist, "model_impl_mismatches": mism,
                                      "disconnects_judged_from_history_alone": n_indep}
-    chk.assumptions += ["thresholds exactly representable (k/4), binary32 rounding not modelled", "cluster filter string empty (the code ignores it)",
+    chk.assumptions += ["thresholds exactly representable (k/4), binary32 rounding not modelled",
+                        "cluster filter strings and instance cluster names are exercised on the real code; the code ignores them "
+                        "(get_instance_list(_cluster_names, ..)), so does the model (no such parameter)",
                         "instances not from gRPC carry no client id (op_wf)"]
